@@ -887,6 +887,21 @@ pub fn raw_words<T>(t: &T, n: usize) -> [usize; 8] {
     out
 }
 
+/// the final form (`into!`) of a group is itself a group object: mandatory vtable pointers in
+/// name order, then the kept optional ones in name order, then the container
+pub fn final_words_check(before: &[usize; 8], after: &[usize; 8], n_mand: usize, opt_pos: &[usize], group: &str, what: &str) -> Result<(), Fail> {
+    let mut want = [0usize; 8];
+    want[..n_mand].copy_from_slice(&before[..n_mand]);
+    for (i, p) in opt_pos.iter().enumerate() {
+        want[n_mand + i] = before[*p];
+    }
+    let n = n_mand + opt_pos.len();
+    if after[..n] != want[..n] {
+        return Err(Fail::new("C04:final-layout", format!("group {group}: the final form for {what} holds the vtable-pointer words {:x?}; expected the mandatory ones in name order followed by the kept optional ones in name order: {:x?}", &after[..n], &want[..n])));
+    }
+    Ok(())
+}
+
 /// the cast ("With") form of a group must have the very layout of the base group
 pub fn same_words(a: &[usize; 8], b: &[usize; 8], group: &str, what: &str) -> Result<(), Fail> {
     if a != b {
